@@ -1655,9 +1655,17 @@ class TensorDict(TensorDictBase):
                 f"the number of sizes provided ({len(shape)}) must be greater or equal to the number of "
                 f"dimensions in the TensorDict ({tensordict_dims})"
             )
+        # -1 keeps the size of an existing dim, as in torch.Tensor.expand
+        num_new = len(shape) - tensordict_dims
+        shape = torch.Size(
+            [
+                self.batch_size[i - num_new] if i >= num_new and size == -1 else size
+                for i, size in enumerate(shape)
+            ]
+        )
 
         # new shape compatibility check
-        for old_dim, new_dim in zip(self.batch_size, shape[-tensordict_dims:]):
+        for old_dim, new_dim in zip(self.batch_size, shape[num_new:]):
             if old_dim != 1 and new_dim != old_dim:
                 raise RuntimeError(
                     "Incompatible expanded shape: The expanded shape length at non-singleton dimension should be same "
